@@ -34,7 +34,7 @@ class Ob:
     def __init__(self, name, harness, units=(), models=(), defines=None, unit_defines=None,
                  unit_includes=(), remove=(), unwind=None, unwindset=(), restrict=(), flags=(),
                  timeout=300, mem_gb=6, kfs=(), kf_cover=True, tier='quick', note='', leak=False,
-                 restrict_by=(), unwind_by=(), kf_only=False, unwind_violation=False, statement='', bounds='', expect_covers=True, solver=None,
+                 restrict_by=(), unwind_by=(), static_allow=None, kf_only=False, unwind_violation=False, statement='', bounds='', expect_covers=True, solver=None,
                  object_bits=10, malloc_may_fail=False, native_libs=('-lz',), cost=None):
         self.name = name; self.harness = harness; self.units = list(units); self.models = list(models)
         self.defines = dict(defines or {}); self.unit_defines = dict(unit_defines or {})
@@ -42,7 +42,7 @@ class Ob:
         self.unwind = unwind; self.unwindset = list(unwindset); self.restrict = list(restrict)
         self.flags = list(flags); self.timeout = timeout; self.mem_gb = mem_gb; self.kfs = list(kfs)
         self.kf_cover = kf_cover; self.tier = tier; self.note = note; self.leak = leak
-        self.restrict_by = list(restrict_by); self.unwind_by = list(unwind_by); self.kf_only = kf_only; self.unwind_violation = unwind_violation; self.statement = statement; self.bounds = bounds
+        self.static_allow = static_allow; self.restrict_by = list(restrict_by); self.unwind_by = list(unwind_by); self.kf_only = kf_only; self.unwind_violation = unwind_violation; self.statement = statement; self.bounds = bounds
         self.expect_covers = expect_covers; self.solver = solver; self.object_bits = object_bits
         self.malloc_may_fail = malloc_may_fail; self.native_libs = list(native_libs)
         self.cost = cost if cost is not None else timeout
@@ -387,8 +387,43 @@ def kf_macro(kid): return 'KF_MODE_' + re.sub(r'[^A-Za-z0-9]', '_', kid)
 
 BUILTIN_UB = ('pointer', 'bounds', 'overflow', 'shift', 'division', 'dereference', 'free', 'memory-leak', 'precondition', 'alloc')
 
+def static_scan(ob, prop_id):
+    """structural side-check (not a solver query): every object with static storage defined in /repo sources, read from the goto
+    symbol table of the freshly compiled units; a writable one that is not allow-listed is reported"""
+    t0 = time.time(); found = []
+    for u in ob.units:
+        gb = goto_compile(src_path(u), ob.unit_defines, ob.unit_includes)
+        rc, o, e, _, _ = sh(['goto-instrument', '--show-symbol-table', '--json-ui', gb], timeout=120)
+        try: data = json.loads(o)
+        except Exception: continue
+        for m in data:
+            if isinstance(m, dict) and 'symbolTable' in m:
+                for name, sy in m['symbolTable'].items():
+                    if not sy.get('isStaticLifetime') or sy.get('isType') or sy.get('isExtern'): continue
+                    ty = sy.get('type', {})
+                    if ty.get('id') == 'code': continue
+                    loc = json.dumps(sy.get('location', {}))
+                    if (REPO + '/') not in loc: continue
+                    txt = json.dumps(ty)
+                    const = '#constant' in txt
+                    found.append({'symbol': name, 'unit': u, 'const': const})
+    bad = [f for f in found if not f['const'] and f['symbol'] not in (ob.static_allow or [])]
+    rec = {'obligation': ob.name, 'harness': '(goto symbol table scan)', 'units': ob.units, 'statement': ob.statement, 'bounds': ob.bounds, 'known_findings': [], 'violations': [],
+           'queries': [{'variant': 'scan', 'status': 'success' if not bad else 'failed', 'seconds': round(time.time() - t0, 2), 'properties': len(found), 'cmd': 'goto-instrument --show-symbol-table --json-ui <unit>.gb', 'detail': json.dumps(found)[:3000], 'witness_reachable': len(found) > 0, 'covers': {}, 'solver_stats': {}}]}
+    if bad:
+        d = os.path.join(VERIF, 'replays', prop_id); os.makedirs(d, exist_ok=True)
+        path = os.path.join(d, 'static_scan.replay')
+        open(path, 'w').write('\n'.join('%s (%s)' % (b['symbol'], b['unit']) for b in bad) + '\n')
+        json.dump({'property_id': prop_id, 'obligation': ob.name, 'defines': {}, 'failed': 'writable static object', 'description': 'writable object with static storage that is not allow-listed: ' + ', '.join(b['symbol'] for b in bad), 'native_verdict': 'structural'}, open(path + '.json', 'w'), indent=1)
+        rec['violations'].append({'property': 'static.scan', 'description': 'writable static storage: ' + ', '.join(b['symbol'] for b in bad), 'replay': path, 'native': 'structural'})
+    rec['status'] = 'violation' if bad else ('discharged' if found else 'inconclusive')
+    rec['seconds'] = rec['queries'][0]['seconds']
+    return rec
+
 def decide(ob, prop_id, kf_db, log):
     """runs one obligation completely; returns record dict"""
+    if ob.static_allow is not None:
+        rec = static_scan(ob, prop_id); log(ob, rec); return rec
     rec = {'obligation': ob.name, 'harness': ob.harness, 'units': ob.units, 'removed_bodies': ob.remove, 'models': ob.models,
            'defines': ob.defines, 'unwind': ob.unwind, 'unwindset': ob.unwindset, 'restrict_function_pointer': ob.restrict,
            'statement': ob.statement, 'bounds': ob.bounds, 'queries': [], 'status': None, 'known_findings': [], 'violations': []}
